@@ -638,7 +638,7 @@ impl World {
         }
         let crypto = test_only_crypto();
         // ops that arrive over a session: the IM runs `check_timeouts(Some(exchange))` first (im.rs:758)
-        let sess_ops = ["open", "arm", "csr", "root", "addnoc", "updnoc", "acl", "grp", "label", "net", "rmnet", "complete", "rmfab", "revoke", "bcw", "gkm"];
+        let sess_ops = ["open", "arm", "csr", "root", "addnoc", "updnoc", "acl", "grp", "label", "net", "rmnet", "complete", "rmfab", "revoke", "bcw", "gkm", "vvs"];
         let mut mode: Option<SessionMode> = None;
         let sid = num(1) as u32;
         if sess_ops.contains(&w[0]) {
@@ -923,6 +923,28 @@ impl World {
                         let fabric = p.fabrics.fabric_mut(fi)?;
                         fabric.groups_mut().key_map_replace([rs_matter::fabric::GroupKeyMapping { group_id: gid, group_key_set_id: 1 }].into_iter())?;
                         if !p.failsafe.defers_store_for(fi.get()) {
+                            persist.store(fabric)?;
+                        }
+                        Ok(())
+                    })();
+                    st(r)
+                })
+            }
+            "vvs" => {
+                // noc.rs `handle_set_vid_verification_statement` (vendor id field alone): the record is stored
+                // at once unless it rides along with the changes staged under this fail-safe for the fabric
+                // (a pending AddNOC / UpdateNOC, a deferred fabric-scoped write)
+                let vid = 1 + (num(2) as u16 % 0xfff0);
+                let kv = self.matter.kv(self.kv.clone());
+                let mut persist = FabricPersist::new(&kv);
+                self.matter.with_state(|state| {
+                    let p = state.verif_parts();
+                    let Some(fi) = nz(sfab) else { return "UnsupportedAccess".to_string() };
+                    let r: Result<(), Error> = (|| {
+                        let fabric = p.fabrics.fabric_mut(fi)?;
+                        fabric.set_vid_verification(Some(vid), None, None)?;
+                        let part_of_pending_fabric = p.failsafe.has_pending_changes_for(fi);
+                        if !part_of_pending_fabric {
                             persist.store(fabric)?;
                         }
                         Ok(())
